@@ -202,4 +202,4 @@ def judge(desc, ctx, n, arcs, s, t, L, res, first):
         raise Violation(tag + ":value-not-maximum", {"objective": res.objective, "max": want})
 
 
-SUBS = [Sub("max_flow", run, strategy=lambda tier: graphs(tier), quick=3000, thorough=12000, workers_quick=4)]
+SUBS = [Sub("max_flow", run, strategy=lambda tier: graphs(tier), quick=5010, thorough=12000, workers_quick=6)]
